@@ -143,6 +143,18 @@ impl Run<'_> {
         c[salt % c.len()]
     }
 
+    /// Output swap path of 1..=3 distinct long/short markets other than `m` (rotation chosen by `salt`),
+    /// optionally followed by `m` itself when it is a long/short market ("[A, current]" shapes).
+    fn out_path(&self, m: usize, salt: usize) -> Vec<usize> {
+        let c: Vec<usize> = NON_PURE.iter().copied().filter(|k| *k != m).collect();
+        let hops = 1 + (salt / 64) % 3;
+        let mut path: Vec<usize> = (0..hops.min(c.len())).map(|i| c[(salt + i) % c.len()]).collect();
+        if (salt / 16) % 2 == 1 && NON_PURE.contains(&m) {
+            path.push(m);
+        }
+        path
+    }
+
     fn step(&mut self, op: &Op) -> Result<(), String> {
         let keeper = self.w.keeper;
         let (lm, sm) = (self.w.long_mint, self.w.short_mint);
@@ -242,9 +254,10 @@ impl Run<'_> {
                 }
                 let mut r = self.w.withdrawal_ref(owner, m, amount);
                 if *swap_out && !info.is_pure() {
-                    // take the long-token output in the short token through another market
-                    r.final_long_token = sm;
-                    r.long_path = vec![self.nonpure_other_than(m, *frac as usize)];
+                    // take the long-token output through 1..4 other markets (each hop flips long <-> short)
+                    r.long_path = self.out_path(m, *frac as usize);
+                    r.final_long_token = if r.long_path.len() % 2 == 1 { sm } else { lm };
+                    self.rec.class_if(r.long_path.len() >= 2, "withdrawal_out_path_of_2_or_more_markets");
                 }
                 if *fate == 2 {
                     r.min_long = u64::MAX;
@@ -370,7 +383,13 @@ impl Run<'_> {
                 let size = if *frac >= 192 { state.state.size_in_usd } else { state.state.size_in_usd * (*frac as u128 + 1) / 256 };
                 let collateral = if p.collateral_long { info.long } else { info.short };
                 let wd = (state.state.collateral_amount * *withdraw as u128 / 16) as u64;
-                let (out, path) = if *out_other { (other_token(&self.w, &collateral), vec![NON_PURE[*frac as usize % 4]]) } else { (collateral, vec![]) };
+                let (out, path) = if *out_other {
+                    let path = if *withdraw % 2 == 0 { vec![NON_PURE[*frac as usize % 4]] } else { self.out_path(p.market, *frac as usize) };
+                    self.rec.class_if(path.len() >= 2, "decrease_out_path_of_2_or_more_markets");
+                    (if path.len() % 2 == 1 { other_token(&self.w, &collateral) } else { collateral }, path)
+                } else {
+                    (collateral, vec![])
+                };
                 let mut r = self.w.decrease_order_ref(p.owner, p.market, p.is_long, p.collateral_long, out, path, wd, size);
                 if *fate == 2 {
                     r.acceptable_price = Some(if p.is_long { u128::MAX } else { 1 });
@@ -525,7 +544,7 @@ pub fn run_c22(ctx: &mut Ctx) {
     ctx.assume("svm-lite is not the Solana runtime (no compute/heap limits); custom price feeds are written through the verif hook price_feed_update instead of a signed Chainlink report; the first signer of an instruction is treated as the writable fee payer; GLV actions, GLV shifts, ADL, closed-state updates and market toggles are the search `solvency_glv`; virtual inventories are not configured");
     let n = ctx.cases(800, 40_000);
     ctx.search("solvency", n, history, check_c22);
-    for (class, floor) in [("deposit_executed", 100), ("withdrawal_executed", 40), ("shift_executed", 20), ("multi_hop_swap_executed", 60), ("increase_executed", 100), ("decrease_executed", 30), ("liquidation_executed", 5), ("liquidation_rejected", 40), ("fees_claimed", 40), ("soft_cancelled", 60), ("owner_cancelled", 60), ("two_or_more_markets_touched", 200)] {
+    for (class, floor) in [("deposit_executed", 100), ("withdrawal_executed", 40), ("shift_executed", 20), ("multi_hop_swap_executed", 60), ("increase_executed", 100), ("decrease_executed", 30), ("liquidation_executed", 5), ("liquidation_rejected", 40), ("fees_claimed", 40), ("soft_cancelled", 60), ("owner_cancelled", 60), ("two_or_more_markets_touched", 200), ("withdrawal_out_path_of_2_or_more_markets", 40), ("decrease_out_path_of_2_or_more_markets", 15)] {
         ctx.floor(&format!("solvency:{class}"), floor);
     }
 }
@@ -1920,14 +1939,16 @@ pub struct GlvCase {
     pub cap_mode: u8,
     /// Cap relative to the projected balance / value, in 1/1000.
     pub cap_rel: u16,
+    /// With both caps: the value cap relative to the projected value, in 1/1000 (independent of the amount cap).
+    pub cap_rel_value: u16,
     pub spread: u8,
     pub price_pct: i8,
     pub withdraw_frac: u8,
 }
 
 fn glv_case() -> impl Strategy<Value = GlvCase> {
-    (1u8..16, 0u8..6, any::<u8>(), 0u16..3000, 0u16..3000, 0u8..4, prop_oneof![2 => 500u16..980, 1 => 980u16..1020, 2 => 1020u16..2000], 0u8..60, -30i8..=30, prop_oneof![1 => Just(255u8), 1 => any::<u8>()])
-        .prop_map(|(init_mask, insert, target, first, deposit, cap_mode, cap_rel, spread, price_pct, withdraw_frac)| GlvCase { init_mask, insert, target, first, deposit, cap_mode, cap_rel, spread, price_pct, withdraw_frac })
+    (1u8..16, 0u8..6, any::<u8>(), 0u16..3000, 0u16..3000, prop_oneof![1 => Just(0u8), 1 => Just(1u8), 1 => Just(2u8), 2 => Just(3u8)], (prop_oneof![2 => 500u16..980, 1 => 980u16..1020, 2 => 1020u16..2000], prop_oneof![2 => 500u16..900, 2 => 1100u16..2000]), 0u8..60, -30i8..=30, prop_oneof![1 => Just(255u8), 1 => any::<u8>()])
+        .prop_map(|(init_mask, insert, target, first, deposit, cap_mode, (cap_rel, cap_rel_value), spread, price_pct, withdraw_frac)| GlvCase { init_mask, insert, target, first, deposit, cap_mode, cap_rel, cap_rel_value, spread, price_pct, withdraw_frac })
 }
 
 fn check_c45(c: &GlvCase, rec: &mut Rec) -> Result<(), String> {
@@ -2046,7 +2067,9 @@ fn check_c45(c: &GlvCase, rec: &mut Rec) -> Result<(), String> {
     };
     let cap_amount = if c.cap_mode & 1 != 0 { Some((projected as u128 * c.cap_rel as u128 / 1000) as u64) } else { None };
     let cap_value: Option<u128> = if c.cap_mode & 2 != 0 {
-        let v = value_of(&w, projected, false) * BigInt::from(c.cap_rel) / BigInt::from(1000);
+        // with both caps configured the two are drawn independently, so that exactly one of them can bind
+        let rel = if c.cap_mode & 1 != 0 { c.cap_rel_value } else { c.cap_rel };
+        let v = value_of(&w, projected, false) * BigInt::from(rel) / BigInt::from(1000);
         Some(u128::try_from(v).map_err(|_| "value overflow")?.max(1))
     } else {
         None
@@ -2088,6 +2111,8 @@ fn check_c45(c: &GlvCase, rec: &mut Rec) -> Result<(), String> {
         rec.class("capped_deposit_cancelled");
         rec.class_if(amount_exceeded, "amount_cap_binding");
         rec.class_if(value_clearly_exceeded, "value_cap_binding");
+        rec.class_if(c.cap_mode == 3 && value_clearly_exceeded && !amount_exceeded, "both_caps_configured_only_value_binding");
+        rec.class_if(c.cap_mode == 3 && !value_clearly_exceeded && amount_exceeded, "both_caps_configured_only_amount_binding");
         return Ok(());
     }
 
@@ -2134,7 +2159,7 @@ pub fn run_c45(ctx: &mut Ctx) {
     ctx.assume("GLV deposits here use market tokens only (no initial long/short tokens or swap paths); GLV shifts are not exercised; the value cap is judged with a tolerance band because the program's pool value includes terms (impact pool, fees) this world keeps near zero");
     let n = ctx.cases(1_000, 50_000);
     ctx.search("glv", n, glv_case, check_c45);
-    for (class, floor) in [("market_inserted", 100), ("insert_rejected_contained", 150), ("insert_rejected_token_mismatch", 150), ("capped_deposit_completed", 300), ("amount_cap_binding", 60), ("value_cap_binding", 40), ("amount_cap_respected", 80), ("round_trip", 300), ("round_trip_with_spread", 250), ("two_member_glv_with_different_compositions", 500), ("target_is_the_short_heavy_member", 200)] {
+    for (class, floor) in [("market_inserted", 100), ("insert_rejected_contained", 150), ("insert_rejected_token_mismatch", 150), ("capped_deposit_completed", 250), ("amount_cap_binding", 60), ("value_cap_binding", 40), ("both_caps_configured_only_value_binding", 15), ("both_caps_configured_only_amount_binding", 15), ("amount_cap_respected", 80), ("round_trip", 250), ("round_trip_with_spread", 250), ("two_member_glv_with_different_compositions", 500), ("target_is_the_short_heavy_member", 200)] {
         ctx.floor(&format!("glv:{class}"), floor);
     }
 }
